@@ -42,7 +42,9 @@ func main() {
 		"concurrent case = 4–16 goroutines, 20–60 calls on 2–8 content keys and 1–3 references, every tagged descriptor unique, set-up and read-back after quiescence recorded as calls; porcupine per content key / reference; " +
 		"distinct = hash(kind, options, order of call/return events); non-trivial = two calls of different goroutines on one key overlapped in time and one of them was a write. " +
 		"cross case (oci only) = 4–12 goroutines, 24–60 calls: Tag/re-Tag/Untag/Resolve of 1–3 references against Delete/re-Push/Exists/Fetch of the SAME descriptor (1–2 descriptors); judged by a combined porcupine model (present?, ref→value) per descriptor, by the quiescent invariant Resolve(r)=d ⇒ Exists(d) ∧ Fetch(d) ok ∧ Tags = resolvable references, and by the real-time rule 'no Tag returns nil after a Delete had returned with no successful Push in between'; " +
-		"non-trivial = a Tag/Untag overlapped a Delete or Push of the same descriptor issued by another goroutine and some Delete succeeded")
+		"non-trivial = a Tag/Untag overlapped a Delete or Push of the same descriptor issued by another goroutine and some Delete succeeded. " +
+		"gc case (oci only) = 4–10 goroutines, 15–37 calls incl. GC() over a sha512-addressed image (manifest without subject, config, layer), a blob and a never-tagged blob, 1–3 references, 300–1200 garbage files planted in blobs/sha256 so that the first sweep is long (half of the rounds: the other goroutines start once the sweep is under way); the whole store is one porcupine object (present set, ref→(item,value)) in which GC atomically removes exactly what no reference reaches; quiescent invariant as above; " +
+		"non-trivial = a Push or Tag of another goroutine overlapped a GC call and some Tag succeeded")
 	r.Assume("concurrent model is relaxed where the statement is silent: a Push linearized onto the same bytes already present may return nil or already-exists / duplicate-name; an Untag linearized onto an untagged reference may return nil or not-found")
 	r.Assume("Predecessors is compared at quiescence only (documented as not snapshot-consistent); in the sequential phase it is compared after every step")
 	r.Assume("unjudged: file-store descriptor whose name is held by other bytes (only 'never wrong bytes' is demanded); oci Delete of bytes that are tagged under another media type; AutoGC off (C09)")
@@ -58,6 +60,7 @@ func main() {
 	worker.Run(r, worker.Opts{Phase: "seq", Total: r.N(600, 12000), Batch: 50, Env: env})
 	worker.Run(r, worker.Opts{Phase: "conc", Total: r.N(1200, 45000), Batch: 100, Env: env})
 	worker.Run(r, worker.Opts{Phase: "cross", Total: r.N(600, 12000), Batch: 100, Env: env})
+	worker.Run(r, worker.Opts{Phase: "gc", Total: r.N(120, 2500), Batch: 20, Env: env})
 	if bin := os.Getenv("VERIF_RACE_BIN"); bin != "" {
 		raceDir := filepath.Join(tmp, "racelogs")
 		os.MkdirAll(raceDir, 0o755)
@@ -84,6 +87,8 @@ func runCase(phase string, i int) worker.Result {
 		return runSeq(i, seed)
 	case phase == "cross", phase == "race" && i%4 == 3:
 		return runCross(phase, i, seed)
+	case phase == "gc", phase == "race" && i%8 == 5:
+		return runCrossGC(phase, i, seed)
 	default:
 		return runConc(phase, i, seed)
 	}
